@@ -75,6 +75,12 @@ def run(tier, seed):
         v.notes.append("conformance drift on %d behaviours (real sendFileState differs from Dispatch.tla): %s" % (
             res['drift'], str(res.get('drift_samples', [])[:1])[:600]))
         print("DRIFT C17: %d behaviours where the real object differs from the spec (not a verdict)" % res['drift'])
+    # the resume report arrives after the grace period, while workers are already active on the file, and the sender's
+    # statistics callback is slow: the file must not be ended before the chunk that failed verification has gone out again
+    li = vlib.run_vh_sharded(['xfer-special', '-seed', str(seed), '-groups', 'lateinfo'], 4, timeout=900)
+    for viol in li['violations']:
+        if viol['sig'].get('kind') == 'damaged_last_complete_chunk_not_repaired':
+            v.violation(dict(kind='file_ended_without_re_sending_the_chunk_that_failed_verification', via='late resume report'), viol.get('replay'))
     # 4/5. end-to-end sender + scheduler traces
     import C17_e2e
     import C17_sched
@@ -92,7 +98,7 @@ def run(tier, seed):
                  negative_configs_refuted=refuted),
         replay=dict(behaviours=res['behaviours'], steps=res['steps'], drift=res['drift'],
                     distinct_behaviours=res['distinct'], actions_exercised=res['extra'].get('actions_exercised')),
-        e2e=extra.get('summary'),
+        e2e=extra.get('summary'), late_resume_reports=dict(runs=li['behaviours'], outcomes=li['extra'].get('outcomes')),
     )
     v.assumptions = [
         "SetVerifyPending/SetPlan/Verdict are closures inside SendManifestMultiStream; in the state-machine replay their lock regions are mirrored by the shim and bound to the real closures only by the end-to-end runs",
